@@ -582,7 +582,10 @@ def validate(chk, lines, prefix):
     for i, ln in enumerate(lines):
         if ln.get("direct", "").startswith(prefix):
             report(chk, ln, ln["direct"], "S2")
-        if ln["exc"] != "none" and ln["op"] != "add_outcome" and prefix == {"g": "C11:", "a": "C11:", "q": "C12:", "c": "C18:", "r": "C18:"}.get(ln["op"][0], "C11:"):
+        owner = {"g": "C11:", "a": "C11:", "q": "C12:", "c": "C18:", "r": "C18:"}.get(ln["op"][0], "C11:")
+        if ln["op"] in ("get", "all_versions") and ln["filters"]:
+            owner = "C12:"          # a lookup by id under filters is judged by the filter clauses (C12:get_with_filters, C12:all_versions_with_filters): so is its failure
+        if ln["exc"] != "none" and ln["op"] != "add_outcome" and prefix == owner:
             if not (ln["op"] in ("relationships", "related_to") and ln["nav"]["src_only"] and ln["nav"]["tgt_only"]):
                 report(chk, ln, prefix + "read_raised_" + ln["exc"], ln.get("stage", "S3"))
     chk.notes["replay_answers_differing_from_tlc"] = sum(1 for ln in lines if ln.get("replay_differs"))
